@@ -523,6 +523,8 @@ def check_property(pid, tier, seed):
     cov['exhaustive'] = bool(stats.get('_exhaustive', False))
     cov['source_hashes'] = source_hashes(getattr(prop, 'ANCHORS', []))
     cov['known_findings'] = res.known
+    if hasattr(prop, 'extra_coverage'):
+        cov.update(prop.extra_coverage())
     ev['assumptions'] = list(getattr(prop, 'ASSUMPTIONS', []))
     ev['violations'] = len(res.violations)
     ev['wall_s'] = round(time.time() - t0, 2)
